@@ -223,22 +223,78 @@ Lemma action_goto_without_S_unreadable rs s :
   read_action rs (PDict (dinsert k_D (PStr s) [])) = TErr (EBase c_NoneError).
 Proof. reflexivity. Qed.
 
-(** * NameTree: whatever is read cannot be written — the writer is `todo!()` (open finding C15-c) *)
-Lemma nametree_write_refuted : exists rs p v, read_nametree rs p = TOk v /\ write_nametree v = TPanic site_nametree_todo.
+(** * NameTree<Primitive> (after fix C15-c): a node the writer accepts reads back to the identical value *)
+Lemma read_write_names rs l : forall ns, write_names l = TOk ns -> read_names rs ns = TOk l.
 Proof.
-  exists (fun _ => TErr (EBase 1)), (PDict [(k_Names, PArr [PStr [97]; PInt 1])]). eexists. split; [vm_compute; reflexivity|reflexivity].
+  induction l as [|x t IH]; intros ns H.
+  - cbn in H. inversion H. reflexivity.
+  - destruct x as [| | | | | | | | | | | | |a b| | | | | |]; try discriminate.
+    destruct a; try discriminate. destruct b; try discriminate.
+    cbn [write_names] in H. destruct (write_names t) as [r| | |] eqn:Hr; try discriminate.
+    cbn [tbind] in H. inversion H. subst ns.
+    cbn [read_names resolve_if_ref tbind into_string]. rewrite (IH r eq_refl). reflexivity.
 Qed.
+Lemma read_write_kids l : forall ks, write_kids l = TOk ks -> read_kids ks = TOk l.
+Proof.
+  induction l as [|x t IH]; intros ks H.
+  - cbn in H. inversion H. reflexivity.
+  - destruct x; try discriminate.
+    cbn [write_kids] in H. destruct (write_kids t) as [r| | |] eqn:Hr; try discriminate.
+    cbn [tbind] in H. inversion H. subst ks. cbn [read_kids]. rewrite (IH r eq_refl). reflexivity.
+Qed.
+
+Theorem nametree_rt rs v p : write_nametree v = TOk p -> read_nametree rs p = TOk v.
+Proof.
+  destruct v as [| | | | | | | | | | | | |limits node| | | | | |]; try discriminate.
+  unfold write_nametree.
+  assert (Hl : forall d0, (match limits with
+               | VNone => TOk []
+               | VSome (VPair (VStr x) (VStr y)) => TOk (dinsert k_Limits (PArr [PStr x; PStr y]) [])
+               | _ => ill_typed end) = TOk d0 ->
+               (limits = VNone /\ d0 = []) \/ exists x y, limits = VSome (VPair (VStr x) (VStr y)) /\ d0 = [(k_Limits, PArr [PStr x; PStr y])]).
+  { intros d0 H. destruct limits as [| | | | | | | | |  |l| | | | | | | | |]; try discriminate.
+    - inversion H. left. split; reflexivity.
+    - destruct l as [| | | | | | | | | | | | |a b| | | | | |]; try discriminate.
+      destruct a; try discriminate. destruct b; try discriminate. inversion H. right. do 2 eexists. split; reflexivity. }
+  destruct (match limits with
+            | VNone => TOk []
+            | VSome (VPair (VStr x) (VStr y)) => TOk (dinsert k_Limits (PArr [PStr x; PStr y]) [])
+            | _ => ill_typed end) as [d0| | |] eqn:Hd; try discriminate.
+  specialize (Hl d0 eq_refl). cbn [tbind].
+  destruct node as [| | | | | | | | | |n| | | |n| | | | |]; try discriminate;
+    destruct n as [| | | | | | | | | | |l| | | | | | | |]; try discriminate.
+  - (* leaf *)
+    destruct (write_names l) as [ns| | |] eqn:Hn; try discriminate. cbn [tbind]. intros Hp. inversion Hp. subst p.
+    pose proof (read_write_names rs l ns Hn) as Hr.
+    destruct Hl as [[Hlim Hd0]|(x & y & Hlim & Hd0)]; subst limits d0; unfold read_nametree;
+      cbn [resolve_if_ref tbind into_dictionary t_try]; vm_compute dget; cbn [resolve_if_ref tbind into_array into_string];
+      rewrite Hr; reflexivity.
+  - (* intermediate *)
+    destruct (write_kids l) as [ks| | |] eqn:Hk; try discriminate. cbn [tbind]. intros Hp. inversion Hp. subst p.
+    pose proof (read_write_kids l ks Hk) as Hr.
+    destruct Hl as [[Hlim Hd0]|(x & y & Hlim & Hd0)]; subst limits d0; unfold read_nametree;
+      cbn [resolve_if_ref tbind into_dictionary t_try]; vm_compute dget; cbn [resolve_if_ref tbind into_array into_string];
+      rewrite Hr; reflexivity.
+Qed.
+
+(* before the fix the writer was `todo!()`: the witness of finding C15-c now goes round *)
+Example nametree_witness_rt :
+  tbind (tbind (read_nametree (fun _ => TErr (EBase 1)) (PDict [(k_Names, PArr [PStr [97]; PInt 1; PStr [98]; PName [120]])])) write_nametree)
+        (read_nametree (fun _ => TErr (EBase 1)))
+  = read_nametree (fun _ => TErr (EBase 1)) (PDict [(k_Names, PArr [PStr [97]; PInt 1; PStr [98]; PName [120]])]).
+Proof. vm_compute. reflexivity. Qed.
 
 (** * the values of hand-written types covered by a proved round trip, and the law that closes the generic theorem *)
 Definition hand_ok (i : N) (v : value) : Prop :=
-  i = hid_Rectangle \/ i = hid_Matrix \/ i = hid_Date \/ (i = hid_Action /\ action_ok v).
+  i = hid_Rectangle \/ i = hid_Matrix \/ i = hid_Date \/ (i = hid_Action /\ action_ok v) \/ i = hid_NameTreePrim.
 
 Theorem hands_law E : forall i x p, hand_ok i x -> h_write hands i x = TOk p ->
   exists x', h_read hands i (resolve E) p = TOk x' /\ h_write hands i x' = TOk p.
 Proof.
-  intros i x p [Hi|[Hi|[Hi|[Hi Hok]]]] Hw; subst i; cbn [hands h_write h_read] in *; unfold hand_write, hand_read in *; cbn in Hw |- *.
+  intros i x p [Hi|[Hi|[Hi|[[Hi Hok]|Hi]]]] Hw; subst i; cbn [hands h_write h_read] in *; unfold hand_write, hand_read in *; cbn in Hw |- *.
   - eapply rectangle_rt. exact Hw.
   - eapply matrix_rt. exact Hw.
   - eapply date_rt. exact Hw.
   - eapply action_rt; eassumption.
+  - exists x. split; [eapply nametree_rt; exact Hw|exact Hw].
 Qed.
